@@ -171,6 +171,7 @@ type Cont func(*Env) *Promise
 // Arrive is the entry point of the VM.
 func (vm *VM) Arrive(name Atom, args []Term, k Cont, env *Env) (promise *Promise) {
 	defer ensurePromise(&promise)
+	verifOnCall(vm, name, args, env)
 
 	if vm.Unknown == nil {
 		vm.Unknown = func(Atom, []Term, *Env) {}
